@@ -13,9 +13,10 @@ namespace ReplyParamFn
 open RustSem Extracted.ReplyOnFns Extracted.ReplyParamFns
 open RustExtern (ParsedAttrs)
 
-variable {MV MF MA Attr P D : Type}
+variable {MV MF MA Attr P D Id : Type}
   (variantFields : MV → List MF) (variantMsgAttr : MV → MA) (attrReplyOn : MA → ReplyOn)
   (fieldAttrs : MF → List Attr) (parsedAttrs : List Attr → ParsedAttrs P D)
+  (attrHandlers : MA → List Id) (variantFnName : MV → Id)
 
 def wrongPlace : String :=
   "Wrong usage of `#[sv::data]` attribute. | The `#[sv::data]` attribute can only be used on the first parameter after the `ReplyCtx`."
@@ -32,7 +33,7 @@ def dataParam (v : MV) : Option (Nat × MF) :=
 
 /-- **C18 / C09: the data parameter.** -/
 theorem as_data_field_spec (v : MV) :
-    MsgVariant.as_data_field variantFields variantMsgAttr attrReplyOn fieldAttrs parsedAttrs v = .ok
+    MsgVariant.as_data_field variantFields variantMsgAttr attrReplyOn fieldAttrs parsedAttrs attrHandlers variantFnName v = .ok
       (match dataParam variantFields fieldAttrs parsedAttrs v with
        | none => (none, [])
        | some (i, f) =>
@@ -48,7 +49,7 @@ theorem as_data_field_spec (v : MV) :
 /-- **C18: a raw payload parameter is the only payload parameter.** No diagnostic for a single parameter or when none is marked; one
 diagnostic — never a panic — otherwise, telling whether parameters follow it or stand between it and the data parameter. -/
 theorem assert_no_redundant_params_spec (payload : List MF) :
-    assert_no_redundant_params variantFields variantMsgAttr attrReplyOn fieldAttrs parsedAttrs payload = .ok ((),
+    assert_no_redundant_params variantFields variantMsgAttr attrReplyOn fieldAttrs parsedAttrs attrHandlers variantFnName payload = .ok ((),
       if payload.length = 1 then []
       else match enumFind (fun f => ((parsedAttrs (fieldAttrs f)).payload).isSome) payload with
         | none => []
@@ -63,6 +64,16 @@ theorem assert_no_redundant_params_spec (payload : List MF) :
     | some p =>
       obtain ⟨i, f⟩ := p
       cases i <;> simp [redundantAfter, redundantBetween]
+
+/-- **which handler names a reply method serves** (`as_variant_handlers_pair`): the names listed in `handlers=[..]`, in order, or —
+when none is listed — the method's own name -/
+theorem as_variant_handlers_pair_spec (v : MV) :
+    MsgVariant.as_variant_handlers_pair variantFields variantMsgAttr attrReplyOn fieldAttrs parsedAttrs attrHandlers variantFnName v = .ok
+      (if (attrHandlers (variantMsgAttr v)).isEmpty then [(v, variantFnName v)] else (attrHandlers (variantMsgAttr v)).map fun h => (v, h), []) := by
+  unfold MsgVariant.as_variant_handlers_pair
+  rw [mapRes_ok (g := fun h => (v, h)) (h := fun _ => rfl)]
+  simp only [bind_ok, List.isEmpty_map]
+  split <;> rfl
 
 /-- `enumFind` returns the first marked element: nothing before it is marked -/
 theorem enumFindFrom_first {α : Type} (p : α → Bool) : ∀ (l : List α) (k i : Nat) (a : α),
@@ -83,8 +94,8 @@ theorem enumFindFrom_first {α : Type} (p : α → Bool) : ∀ (l : List α) (k 
       | succ j => exact hb j (by omega) b (by simpa using hb')
 
 /-- non-vacuity: parameters are numbers, the second is marked; on a `success` method that is the wrong place -/
-example : MsgVariant.as_data_field (MsgVariant := Unit) (MsgAttr := Unit) (fun _ => [10, 21, 30]) (fun _ => ()) (fun _ => ReplyOn.Success)
-    (fun f => [f]) (fun as => (⟨none, if as == [21] then some () else none⟩ : ParsedAttrs Unit Unit)) ()
+example : MsgVariant.as_data_field (MsgVariant := Unit) (MsgAttr := Unit) (Ident := Nat) (fun _ => [10, 21, 30]) (fun _ => ()) (fun _ => ReplyOn.Success)
+    (fun f => [f]) (fun as => (⟨none, if as == [21] then some () else none⟩ : ParsedAttrs Unit Unit)) (fun _ => []) (fun _ => 0) ()
     = .ok (none, [wrongPlace]) := by
   rw [as_data_field_spec]; rfl
 
